@@ -47,6 +47,9 @@ def generate(seed, tier):
                 a1 = None
         cmd = g.pick([0, 1, 2], [2, 4, 2])
         ops.append([k, a0, a1, cmd, g.int(0, 255)])
+        if g.chance(0.04):
+            # time passes (a slow consumer): what is parked stays parked, however long
+            ops.append(['sleep', 0, 0, 0, g.pick([1, 30, 61, 90, 200])])
     if g.chance(0.08):
         # a deep backlog on one pair (a reader that is far behind), other pairs sprinkled in, then drained: every packet comes
         # back, oldest first, however many are waiting
@@ -67,6 +70,18 @@ def generate(seed, tier):
 
 
 def run_ops(ops):
+    from ..clock import SimClock, TimeShim, patch_clock_refs, unpatch_clock_refs
+    hh = load()['hidden_helpers']
+    clock = SimClock()
+    # the store has no business with the clock (and does not read one on the pinned tree); if it ever does, it reads this one
+    saved = patch_clock_refs(hh, TimeShim(clock))
+    try:
+        return _run_ops(ops, clock)
+    finally:
+        unpatch_clock_refs(saved)
+
+
+def _run_ops(ops, clock):
     sh = ShadowStore(_new_store())
     wild = 0
     zero_hit = 0
@@ -93,6 +108,8 @@ def run_ops(ops):
                 len(sh)
             elif k == 'contains':
                 (a0, a1) in sh
+            elif k == 'sleep':
+                clock.advance(float(b))
         except Exception as e:    # noqa
             sh._err('%s(%r,%r) raised %s: %s' % (k, a0, a1, type(e).__name__, e))
     return sh, zero_hit
